@@ -271,6 +271,7 @@ func (x *Exec) callback(st *State, fv *Term, args []Val, pos token.Pos) []Outcom
 	pv := pval
 	st2.Assume(Not(Eq(App("Int", "itag", pv), IntLit(0))))
 	st2.panicking = pv
+	st2.ownPanic = false
 	st2.Note("callback panics")
 	outs = append(outs, Outcome{st: st2, panicked: true})
 	return outs
@@ -403,6 +404,10 @@ func (x *Exec) callContract(st *State, fn *ssa.Function, con *Contract, args []V
 		pc.bindResults(fn, results)
 		if pv != nil {
 			pc.vars["panicval"] = pv
+			// whether the callee raised the value itself is not known to the caller
+			op := s.Fresh("ownPanic", "Bool")
+			op.T = types.Typ[types.Bool]
+			pc.vars["$ownPanic"] = op
 		}
 		pc.evalLetsOld(con)
 		for _, e := range clauses {
@@ -446,6 +451,7 @@ func (x *Exec) callContract(st *State, fn *ssa.Function, con *Contract, args []V
 		stP.Assume(Not(Eq(App("Int", "itag", pv), IntLit(0))))
 		mkPost(stP, con.Panics, nil, pv)
 		stP.panicking = pv
+		stP.ownPanic = false
 		stP.Note("callee " + key + " panics")
 		outs = append(outs, Outcome{st: stP, panicked: true})
 	}
@@ -607,6 +613,10 @@ func (x *Exec) callContractSig(st *State, con *Contract, ms *methodStub, recv *T
 		}
 		if pv != nil {
 			pc.vars["panicval"] = pv
+			// whether the callee raised the value itself is not known to the caller
+			op := s.Fresh("ownPanic", "Bool")
+			op.T = types.Typ[types.Bool]
+			pc.vars["$ownPanic"] = op
 		}
 		pc.evalLetsOld(con)
 		for _, e := range clauses {
@@ -655,6 +665,7 @@ func (x *Exec) callContractSig(st *State, con *Contract, ms *methodStub, recv *T
 		logEvent(stP, IntLit(-1))
 		post(stP, con.Panics, nil, pv)
 		stP.panicking = pv
+		stP.ownPanic = false
 		outs = append(outs, Outcome{st: stP, panicked: true})
 	}
 	if stE != nil {
